@@ -326,6 +326,9 @@ def parse_facebook_url(url, allow_relative_urls=False):
     if "/videos/" in splitted.path:
         parts = pathsplit(splitted.path)
 
+        if len(parts) < 3:
+            return None
+
         return FacebookVideo(parts[2], parent_id=parts[0])
 
     # Photos
@@ -359,6 +362,9 @@ def parse_facebook_url(url, allow_relative_urls=False):
     if "/photos/" in splitted.path:
         parts = pathsplit(splitted.path)
 
+        if len(parts) < 4:
+            return None
+
         parent_id_or_handle = parts[0]
         album_id = parts[2].replace("a.", "")
         photo_id = parts[3]
@@ -376,7 +382,13 @@ def parse_facebook_url(url, allow_relative_urls=False):
     if "/posts/" in splitted.path:
         parts = pathsplit(splitted.path)
 
+        if len(parts) < 3:
+            return None
+
         if parts[0] == "groups":
+            if len(parts) < 4:
+                return None
+
             group_id_or_handle = parts[1]
 
             if NUMERIC_ID_RE.match(group_id_or_handle):
@@ -396,17 +408,24 @@ def parse_facebook_url(url, allow_relative_urls=False):
     ):
         query = safe_parse_qs(splitted.query)
         parent_id = query.get("id", None)
+        post_id = query.get("story_fbid", None)
 
-        if not parent_id:
+        if not parent_id or not post_id:
             return None
 
-        return FacebookPost(query["story_fbid"][0], parent_id=parent_id[0])
+        return FacebookPost(post_id[0], parent_id=parent_id[0])
 
     # Group permalink path
     if "/groups/" in splitted.path:
         parts = pathsplit(splitted.path)
 
+        if len(parts) < 2:
+            return None
+
         if "/permalink/" in splitted.path:
+            if len(parts) < 4:
+                return None
+
             if is_facebook_id(parts[1]):
                 return FacebookPost(parts[3], group_id=parts[1])
 
@@ -420,12 +439,20 @@ def parse_facebook_url(url, allow_relative_urls=False):
     # Profile path
     if splitted.path == "/profile.php":
         query = safe_parse_qs(splitted.query)
-        user_id = query["id"][0]
-        return FacebookUser(user_id)
+        user_id = query.get("id", None)
+
+        if not user_id:
+            return None
+
+        return FacebookUser(user_id[0])
 
     # People path
     if splitted.path.startswith("/people"):
         parts = pathsplit(splitted.path)
+
+        if len(parts) < 3:
+            return None
+
         user_id = parts[2]
         return FacebookUser(user_id)
 
@@ -433,7 +460,7 @@ def parse_facebook_url(url, allow_relative_urls=False):
     if splitted.path:
         parts = pathsplit(splitted.path)
 
-        if not parts[0].endswith(".php"):
+        if parts and not parts[0].endswith(".php"):
             return FacebookHandle(parts[0])
 
     return None
